@@ -97,13 +97,13 @@ func alphabet(cols, rows int, full bool) []Op {
 	one("CUD", "B", rows, false, few(rows))
 	one("CUF", "C", cols, false, few(cols))
 	one("CUB", "D", cols, false, few(cols))
-	one("CNL", "E", rows, false, []string{"", "2"})
-	one("CPL", "F", rows, false, []string{"", "2"})
+	one("CNL", "E", rows, false, []string{"", "2", fmt.Sprint(rows + 1)})
+	one("CPL", "F", rows, false, []string{"", "2", fmt.Sprint(rows + 1)})
 	one("CHA", "G", cols, true, few(cols))
 	one("VPA", "d", rows, true, few(rows))
-	one("HPA", "`", cols, true, []string{"2"})
-	one("HPR", "a", cols, false, []string{"", "2"})
-	one("VPR", "e", rows, false, []string{"", "2"})
+	one("HPA", "`", cols, true, []string{"2", fmt.Sprint(cols), fmt.Sprint(cols + 1)})
+	one("HPR", "a", cols, false, []string{"", "2", fmt.Sprint(cols + 1)})
+	one("VPR", "e", rows, false, []string{"", "2", fmt.Sprint(rows + 1)})
 	for _, rc := range []string{"", "1;1", "2;2", "0;0", fmt.Sprintf("%d;%d", rows, cols), fmt.Sprintf("%d;%d", rows+1, cols+1), "2", ";2"} {
 		add("CUP", "\x1b["+rc+"H", true)
 	}
